@@ -124,4 +124,16 @@ CHECKS = {
         assumptions=["operations are only issued on live entries (using an entry after Clunk/Remove is caller misuse)",
                      "Create with a name the client rejects locally may legitimately issue no session call"],
     ),
+    "C17": dict(
+        pkg="readdir",
+        level="exploration",
+        groups=[G("^TestC17_Readdir$", 3000, 25000), G("^TestC17_Session$", 1500, 10000), G("^TestC17_EndToEnd$", 300, 1500)],
+        rule="listing of 0..60 entries with name/uid lengths 0..300; the underlying iterator hands them out in generated batch sizes and ends with (nil,nil), (empty,nil) or io.EOF; "
+             "read counts = largest encoded entry + {0,1,2,..120,..3000,70000}; 12% of reads are preceded by a read at a wrong offset. Three levels: p9p.NewReaddir directly, "
+             "through SFileSys on a mock directory, and end to end CFileSys(CSession) <-> ServeConn with the negotiated msize forced to a generated value. Oracle: the reference "
+             "encoder's stat records concatenated in listing order; every reply is a run of whole entries, at most count bytes, empty iff everything was delivered. "
+             "Non-trivial = at least 2 entries and at least 2 non-empty reads (an entry boundary met a buffer boundary).",
+        require_classes=dict(quick=["multi_read", "empty_listing", "wrong_offset_rejected", "level1", "level2", "level3", "end_nil", "end_empty", "end_eof"], thorough=[]),
+        assumptions=["every read count is at least the largest encoded entry, as the property states", "the underlying iterator returns no errors"],
+    ),
 }
